@@ -269,11 +269,12 @@ class World:
                                           b(i._get_address_and_nsec_records_cache)) for k, i in r._services.items())
 
 
-def build_msgs(op):
+def build_msgs(op, want_packets=False):
     """the datagrams of a query op, parsed by the real decoder"""
     from zeroconf import DNSIncoming, DNSOutgoing, DNSQuestion, const
 
     msgs = []
+    packets = []
     for m in op["msgs"]:
         out = DNSOutgoing(const._FLAGS_QR_QUERY)
         for name, ty, cl in m["qs"]:
@@ -291,7 +292,8 @@ def build_msgs(op):
         if not inc.valid:
             raise RuntimeError("generated query does not parse")
         msgs.append(inc)
-    return msgs
+        packets.append(pk[0])
+    return (msgs, packets) if want_packets else msgs
 
 
 def exec_history(ops, want_lines=True):
@@ -356,20 +358,7 @@ def exec_history(ops, want_lines=True):
                 if info is None:
                     continue
                 kind, val = op["mut"]
-                if kind == "port":
-                    info.port = val
-                elif kind == "weight":
-                    info.weight = val
-                elif kind == "priority":
-                    info.priority = val
-                elif kind == "text":
-                    info.text = bytes.fromhex(val)
-                elif kind == "httl":
-                    info.host_ttl = val
-                elif kind == "ottl":
-                    info.other_ttl = val
-                elif kind == "addrs":
-                    info.addresses = [bytes.fromhex(a) for a in val]
+                apply_mut(info, op["mut"])
                 if w.book.get(info.key) is not info:
                     continue  # a write to an object that is not registered: visible only through its fields at the next R/U
                 w.dirty.add(info.key)
@@ -383,12 +372,7 @@ def exec_history(ops, want_lines=True):
                 line = "M %s %s" % (C.hs(info.key), mt)
                 impl = "ok # %s" % w.dump()
             elif k == "Q":
-                parts = []
-                for m in msgs:
-                    ans = m.answers()
-                    parts.append("%d %d %s %d %s" % (1 if m.is_probe() else 0, len(m.questions), " ".join(C.question_line(x) for x in m.questions),
-                                                   len(ans), " ".join(rline(a) for a in ans)))
-                line = "Q %d %s" % (len(msgs), " ".join(parts))
+                line = msg_line(msgs)
                 svcs = [fields(i) for i in w.book.values()]
                 qa = w.qh.async_response(msgs, bool(op.get("ucast")))
                 merged = {}
@@ -517,6 +501,247 @@ def shrink(ops, sig, limit=200):
                     i -= 1
         cur = cur[:-1] + [qop]
     return cur
+
+
+# ------------------------------------------------------------------------------------------
+# second observation point: the datagrams a whole simulated host sends after an injected query
+
+
+def msg_line(msgs):
+    parts = []
+    for m in msgs:
+        ans = m.answers()
+        parts.append("%d %d %s %d %s" % (1 if m.is_probe() else 0, len(m.questions), " ".join(C.question_line(x) for x in m.questions),
+                                       len(ans), " ".join(rline(a) for a in ans)))
+    return "Q %d %s" % (len(msgs), " ".join(parts))
+
+
+def exec_wire(ops, seed):
+    """Run a history through the public API of a real Zeroconf instance under the virtual-time simulator; queries are injected
+    datagrams and the observation is what the host then puts on the wire (unicast and multicast, any delay up to 2.6 s)."""
+    from zeroconf import DNSIncoming, const
+
+    from . import vsim
+
+    sim = vsim.Sim(seed)
+    steps = []
+
+    async def main(sim):
+        host = sim.make_host("A", "10.0.0.1")
+        zc = host.zc
+        await zc.async_wait_for_start()
+        objs, book = {}, {}
+        for op in ops:
+            k = op["op"]
+            q = None
+            if k == "R" or k == "Unew" or k == "U":
+                if k == "U":
+                    info = objs.get(op["obj"])
+                    if info is None:
+                        continue
+                else:
+                    info = make_info(op["svc"])
+                    objs[op["obj"]] = info
+                line = ("R " if k == "R" else "U ") + svc_line(fields(info))
+                try:
+                    fut = await (zc.async_register_service(info) if k == "R" else zc.async_update_service(info))
+                    await fut
+                    book[info.key] = info
+                    impl = "ok"
+                except Exception as ex:  # noqa: BLE001
+                    impl = type(ex).__name__
+                await sim.sleep_ms(1500)
+            elif k == "X":
+                infos = [objs[i] for i in op["objs"] if i in objs]
+                if not infos:
+                    continue
+                line = "X %d %s" % (len(infos), " ".join(C.hs(i.key) for i in infos))
+                impl = "ok"
+                for i in infos:
+                    try:
+                        fut = await zc.async_unregister_service(i)
+                        await fut
+                        book.pop(i.key, None)
+                    except Exception as ex:  # noqa: BLE001
+                        impl = type(ex).__name__
+                await sim.sleep_ms(1500)
+            elif k == "M":
+                info = objs.get(op["obj"])
+                if info is None or book.get(info.key) is not info:
+                    continue
+                apply_mut(info, op["mut"])
+                continue  # always followed by U in the wire stream; the model is told through U's fields
+            elif k == "Q":
+                msgs, packets = build_msgs(op, want_packets=True)
+                line = msg_line(msgs)
+                svcs = [fields(i) for i in book.values()]
+                start = len(sim.net.log)
+                host.inject(packets[0], "10.9.9.9", op.get("port", 5353))
+                await sim.sleep_ms(2600)
+                pkts = []
+                for (t, src, dst, port, data) in sim.net.log[start:]:
+                    inc = DNSIncoming(data)
+                    if inc.is_query():
+                        continue
+                    recs = inc.answers()
+                    na = inc.num_answers
+                    pkts.append({"dst": dst, "answers": recs[:na], "adds": recs[na + inc.num_authorities:]})
+                impl = "wire"
+                q = {"svcs": svcs, "qs": list(msgs[0].questions), "known": list(msgs[0].answers()) if not msgs[0].is_probe() else [], "pkts": pkts,
+                     "ettl": const._DNS_OTHER_TTL, "in_scope": all(x.class_ == 1 for x in msgs[0].questions)}
+            else:
+                continue
+            steps.append({"op": op, "line": line, "impl": impl, "q": q})
+        await vsim.close_host(host)
+
+    sim.run(main)
+    return steps, [str(e.get("exception") or e.get("message")) for e in sim.errors]
+
+
+def apply_mut(info, mut):
+    kind, val = mut
+    if kind == "port":
+        info.port = val
+    elif kind == "weight":
+        info.weight = val
+    elif kind == "priority":
+        info.priority = val
+    elif kind == "text":
+        info.text = bytes.fromhex(val)
+    elif kind == "httl":
+        info.host_ttl = val
+    elif kind == "ottl":
+        info.other_ttl = val
+    elif kind == "addrs":
+        info.addresses = [bytes.fromhex(a) for a in val]
+
+
+def fixu(t):
+    """a wire record with the cache-flush bit the specification expects (unicast replies never set it: packet format, C11)"""
+    return t[:4] + (t[0] != "p",) + t[5:]
+
+
+def nou(line):
+    t = line.split()
+    t[4] = "0"
+    return " ".join(t)
+
+
+def wire_oracle(q):
+    """the property's sentence on what was put on the wire"""
+    union = {}
+    bad = []
+    rtuple = lambda r: fixu(globals()["rtuple"](r))  # noqa: E731
+    for p in q["pkts"]:
+        for a in p["answers"]:
+            union[rline(a)] = a
+    svcs, qs = q["svcs"], [(x.name, x.type) for x in q["qs"]]
+    known = [rtuple(k) for k in q["known"]]
+    bad += oracle(svcs, qs, known, [(rtuple(a), []) for a in union.values()], q["ettl"])
+    for p in q["pkts"]:
+        aid = {ident(rtuple(a)) for a in p["answers"]}
+        allowed = set()
+        for f in svcs:
+            ptr, srv, txt, addrs, nsec, missing, enum = own_records(f, q["ettl"])
+            if aid & {ident(x) for x in [ptr, srv, txt] + addrs + nsec}:
+                allowed |= set([srv, txt] + addrs + nsec)
+        seen = set()
+        for x in p["adds"]:
+            t = rtuple(x)
+            if ident(t) in aid:
+                bad.append(("C03:additional-repeats-answer", "an additional record repeats an answer of the same datagram", t))
+            if ident(t) in seen:
+                bad.append(("C03:additional-twice", "an additional record appears twice in one datagram", t))
+            if t not in allowed:
+                bad.append(("C03:foreign-additional:wire", "a datagram carries an additional that is not an SRV/TXT/address/NSEC record of a service owning one of its answers", t))
+            seen.add(ident(t))
+    return bad
+
+
+def gen_wire_history(rng):
+    """short histories with unique names (the public API probes for conflicts), writes always followed by update"""
+    ops = []
+    live = {}
+    past = []
+    nid = 0
+    for _ in range(rng.choice([3, 5, 7])):
+        r = rng.random()
+        if r < 0.4 or not live:
+            spec = gen_svc(rng)
+            if any(s["name"].lower() == spec["name"].lower() for s in list(live.values()) + past):
+                continue
+            if live and rng.random() < 0.4:
+                o = rng.choice(list(live.values()))
+                spec["server"] = o["server"] if o["server"] else o["name"]
+                if rng.random() < 0.5:
+                    spec["addrs"] = list(o["addrs"])
+            ops.append({"op": "R", "svc": spec, "obj": nid})
+            live[nid] = spec
+            nid += 1
+        elif r < 0.55:
+            i = rng.choice(list(live))
+            ops.append({"op": "X", "objs": [i]})
+            past.insert(0, live.pop(i))
+            ops.append(dict(gen_query(rng, cur_fields(live), fl(past), force_enum=True), port=5353))
+        elif r < 0.7:
+            i = rng.choice(list(live))
+            s = live[i]
+            kind = rng.choice(["port", "text", "httl", "ottl", "addrs"])
+            val = {"port": rng.choice([81, 8080]), "text": rng.choice(TEXTS).hex(), "httl": rng.choice(HOST_TTLS), "ottl": rng.choice(OTHER_TTLS),
+                   "addrs": gen_svc(rng)["addrs"]}[kind]
+            s["addrs" if kind == "addrs" else kind] = val
+            ops.append({"op": "M", "obj": i, "mut": [kind, val]})
+            ops.append({"op": "U", "obj": i})
+        ops.append(dict(gen_query(rng, cur_fields(live), fl(past)), port=rng.choice([5353, 5353, 5353, 40000])))
+    for o in ops:
+        if o["op"] == "Q":
+            o["msgs"] = o["msgs"][:1]
+            o["msgs"][0]["probe"] = False
+    return ops
+
+
+def assess_wire(res, ops, steps, errors, model_line, seed):
+    case = {"wire": True, "sim_seed": seed, "ops": ops}
+    for e in errors:
+        res.violate("C03:wire-exception", "the simulated host logged an error: %s" % e[:200], case)
+    mobs = None
+    if model_line is not None:
+        mobs = model_line.split(" | ")
+        if model_line == "bad-op" or len(mobs) != len(steps):
+            res.disagree("c03-wire", case, "%d steps" % len(steps), model_line[:200])
+            mobs = None
+    for i, s in enumerate(steps):
+        q = s["q"]
+        if q is None:
+            if s["impl"] != "ok":
+                res.disagree("c03-wire", dict(case, step=i), s["impl"], "ok")
+            continue
+        res.evaluations += 1
+        res.count("wire-queries")
+        res.count("wire-datagrams", len(q["pkts"]))
+        union = sorted({nou(rline(a)) for p in q["pkts"] for a in p["answers"]})
+        if union:
+            res.nontriv(("wire", tuple(sorted((x.type, x.name.lower() == ENUM) for x in q["qs"])), min(len(union), 4), len(q["pkts"])))
+        if q["in_scope"]:
+            for sig, what, detail in wire_oracle(q):
+                res.violate(sig, what + " (on the wire)", dict(case, step=i, detail=repr(detail)))
+        if mobs is not None:
+            ma = mobs[i].partition(" # ")[0]
+            mdict = {}
+            if ma not in ("none", "empty"):
+                for e in ma.split(" ; "):
+                    parts = e.split(" , ")
+                    mdict[nou(parts[0])] = parts[1:]
+            if sorted(mdict) != union:
+                res.disagree("c03-wire-answers", dict(case, step=i), union, sorted(mdict))
+                continue
+            lid = lambda l: ident(rtuple(rec_from_line(l)))
+            for p in q["pkts"]:
+                aid = {ident(rtuple(a)) for a in p["answers"]}
+                want = {lid(x) for a in p["answers"] for x in mdict.get(nou(rline(a)), [])} - aid
+                got = {ident(rtuple(x)) for x in p["adds"]}
+                if want != got:
+                    res.disagree("c03-wire-additionals", dict(case, step=i), sorted(map(str, got)), sorted(map(str, want)))
 
 
 # ------------------------------------------------------------------------------------------
@@ -814,7 +1039,7 @@ def assess(res, ops, steps, model_line, omodel, olines, label):
                 f = dict(p.split("=") for p in o.split())
                 if "0" in f["s"]:
                     lbad.append("unsound")
-                if f["c"] != "1":
+                if f["c"] != "1" and not any(rtuple(k)[0] == "n" for k in q["known"]):
                     lbad.append("incomplete")
                 if "0" in f["a"]:
                     lbad.append("additionals")
@@ -845,13 +1070,15 @@ def assess(res, ops, steps, model_line, omodel, olines, label):
 
 def run(ctx):
     res = C.Result("C03")
-    rng = C.rng_for(ctx["seed"], "c03")
-    budget = C.Budget(ctx["tier"], 3000, 60000).n
+    budget = C.Budget(ctx["tier"], 12000, 200000).n
+    wire_budget = C.Budget(ctx["tier"], 25, 400).n
     if ctx["widened"]:
         budget *= 4
+        wire_budget *= 2
     res.rule = ("registry histories (register / update with a new or the same object / unregister one or several / attribute writes / queries) over "
                 "5 types x 6 labels x 4 hosts x 8 address shapes x boundary TTLs; queries of 1-4 questions x 0-4 known answers at TTL floor(t/2), floor(t/2)+1, ...; "
-                "non-trivial = distinct (question kinds, #answers, #known, #services, answer kinds, dirty) signatures with at least one answer or known answer")
+                "non-trivial = distinct (question kinds, #answers, #known, #services, answer kinds, dirty) signatures with at least one answer or known answer; "
+                "plus simulated-host histories through the public API observed on the wire")
     histories = [("corpus/" + name, body["ops"]) for name, body in C.load_corpus("C03")]
     nq = 0
     batch = []
@@ -889,11 +1116,30 @@ def run(ctx):
         batch = []
         if nq >= budget or res.violations:
             done = True
+    # ---- second observation point: datagrams of a simulated host (skipped once a violation is in hand)
+    if not res.violations:
+        runs = []
+        for w in range(wire_budget):
+            wr = C.rng_for(ctx["seed"], "c03-wire", w)
+            ops = gen_wire_history(wr)
+            seed = ctx["seed"] * 100003 + w
+            steps, errors = exec_wire(ops, seed)
+            runs.append((ops, seed, steps, errors))
+        model = None
+        if ctx["driver_ok"]:
+            try:
+                model = C.run_driver(["c03 %d %s" % (len(st), " ".join(x["line"] for x in st)) if st else "ping" for _, _, st, _ in runs])
+            except C.DriverUnavailable as ex:
+                res.notes.append("driver unavailable: %s" % ex)
+        for j, (ops, seed, steps, errors) in enumerate(runs):
+            ml = model[j] if model is not None and steps else None
+            assess_wire(res, ops, steps, errors, ml, seed)
+            res.count("wire-histories")
     # shrink the first violation of each signature
     seen = set()
     shrunk = []
     for v in res.violations:
-        if v["sig"] in seen:
+        if v["sig"] in seen or v["case"].get("wire"):
             shrunk.append(v)
             continue
         seen.add(v["sig"])
@@ -910,5 +1156,12 @@ def run(ctx):
 def replay(body):
     case = body.get("case", body)
     ops = case["ops"]
-    v = violations_of(ops)
+    if case.get("wire"):
+        steps, errors = exec_wire(ops, case.get("sim_seed", 0))
+        v = [("C03:wire-exception", e, -1) for e in errors]
+        for i, s in enumerate(steps):
+            if s["q"] is not None and s["q"]["in_scope"]:
+                v += [(sig, what, i) for sig, what, _ in wire_oracle(s["q"])]
+    else:
+        v = violations_of(ops)
     return {"violates": bool(v), "violations": [{"sig": s, "what": w, "step": st} for s, w, st in v][:10], "ops": len(ops)}
